@@ -129,7 +129,6 @@ static std::string postEvaluator(XPathSide& x)
 int main(int argc, char** argv)
 {
     Init init;
-    XPathEvaluator::initialize();
     std::istream* in = &std::cin;
     std::ifstream f;
     if (argc > 1) { f.open(argv[1]); in = &f; }
@@ -256,6 +255,5 @@ int main(int argc, char** argv)
     if (qinit) XalanXPathAPITerminate();
     if (ch) DeleteXalanTransformer(ch);
     }
-    XPathEvaluator::terminate();
     return 0;
 }
